@@ -66,7 +66,7 @@ PROPS = {
         "engines": [storm("scen")],
         "rule": "each evaluation is one accepted classic liquidation (committed or simulated at the bisected acceptance boundary) judged on pre/post reference maintenance health, flips, liquidator health and the 95/97.5/2.5 percent rule in exact rationals; distinct = (debt decimals, collateral decimals, #assets, #liabs, e-mode)",
         "assumptions": COMMON_ASSUMPTIONS,
-        "floors": {"quick": {"C05.liquidations_accepted": 100, "scen.liquidation_boundary_found": 5}},
+        "floors": {"quick": {"C05.liquidations_accepted": 100, "scen.liquidation_boundary_found": 5, "scen.liquidatable_price_boundary_found": 20}},
     },
     "C07": {
         "engines": [storm("scen")],
@@ -106,10 +106,10 @@ PROPS = {
         "floors": {"quick": {"C18.configs_accepted/valid-random": 200, "C18.configs_accepted/adjacent-utils": 200, "C18.configs_accepted/extreme-rates": 200, "C18.configs_accepted/legacy": 50, "C18.configured_points_checked": 2000}},
     },
     "C20": {
-        "engines": [direct("C20", sq=10, st=10), storm("venue", sq=6, st=6)],
-        "rule": "direct engine: each evaluation is one call of a venue conversion / adjustment / staleness function on inputs clustered at overflow cliffs, judged against exact rationals; distinct = (venue, decimals, magnitude classes of supplies and amount). venue engine (chain rig): each evaluation is one accepted kamino_deposit / kamino_withdraw executed against the stateful venue stand-in, judged in exact rationals on what marginfi booked versus what the venue credited or paid (position credit <= venue collateral credited, credit worth <= tokens paid, tokens received <= worth of the position decrease, bank books <= obligation collateral, pass-through vault unchanged), plus deposit-then-withdraw-all round trips and borrow / withdraw probes against a reserve that was not refreshed in the current slot; distinct adds (instruction, rate class, decimals, empty reserve, withdraw-all, injected venue rounding fault)",
+        "engines": [direct("C20", sq=10, st=10), storm("venue", sq=4, st=4), dict(storm("venue-wrapcheck", sq=2, st=2), profile="dbgassert")],
+        "rule": "direct engine: each evaluation is one call of a venue conversion / adjustment / staleness function on inputs clustered at overflow cliffs, judged against exact rationals; distinct = (venue, decimals, magnitude classes of supplies and amount). venue engine (chain rig): each evaluation is one accepted kamino_deposit / kamino_withdraw executed against the stateful venue stand-in, judged in exact rationals on what marginfi booked versus what the venue credited or paid (position credit <= venue collateral credited, credit worth <= tokens paid, tokens received <= worth of the position decrease, bank books <= obligation collateral, pass-through vault unchanged), plus deposit-then-withdraw-all round trips and borrow / withdraw probes against a reserve that was not refreshed in the current slot; the venue-wrapcheck engine runs the same workload on a build with debug assertions on, where the fixed-point operators and from_num check overflow instead of wrapping (an overflow panic inside price / venue conversion code marks a silently wrapped value in the deployed profile); distinct adds (instruction, rate class, decimals, empty reserve, withdraw-all, injected venue rounding fault)",
         "assumptions": ["'never rounds in the user's favour' is judged as the statement defines it (round trips, Drift decrement >= increment); comparison against the exact quotient allows the derived truncation error of the scaled supplies", "the venue engine runs kamino_deposit / kamino_withdraw against a harness-side stand-in of the venue (floor rounding in the venue's favour, optional injected off-by-one/two rounding faults), not the venue program; Drift and Solend handlers are judged by the direct engine only"],
-        "floors": {"quick": {"C20.round_trips": 30000, "C20.monotonicity_pairs": 12000, "C20.adjust_i64/some": 6000, "C20.drift_inc_dec/ok": 6000, "C20.venue_ops/KaminoDeposit": 1000, "C20.venue_ops/KaminoWithdraw": 300, "C20.chain_round_trips": 10, "venue.stale_reserve_borrow_rejected": 10}},
+        "floors": {"quick": {"C20.round_trips": 30000, "C20.monotonicity_pairs": 12000, "C20.adjust_i64/some": 6000, "C20.drift_inc_dec/ok": 6000, "C20.venue_ops/KaminoDeposit": 1000, "C20.venue_ops/KaminoWithdraw": 300, "C20.chain_round_trips": 10, "venue.stale_reserve_borrow_rejected": 10, "wrapcheck.committed_transactions_observed_under_debug_assertions": 2000}},
     },
     "C08": {
         "engines": [storm("matrix")],
